@@ -1,4 +1,5 @@
 import operator
+import numbers
 
 from . import libmp
 
@@ -32,6 +33,11 @@ def convert_mpf_(x, prec, rounding):
     if isinstance(x, int_types): return from_int(x, prec, rounding)
     if isinstance(x, float): return from_float(x, prec, rounding)
     if isinstance(x, basestring): return from_str(x, prec, rounding)
+    if hasattr(x, "_mpq_"):
+        p, q = x._mpq_
+        return from_rational(p, q, prec, rounding)
+    if isinstance(x, numbers.Rational):
+        return from_rational(int(x.numerator), int(x.denominator), prec, rounding)
     raise NotImplementedError
 
 
